@@ -114,7 +114,19 @@ struct FnRec {
     src_text: String,
 }
 
+struct TraitImpl {
+    trait_name: String,
+    type_name: String,
+    assoc: BTreeMap<String, String>,
+    overridden: BTreeSet<String>,
+    file: String,
+    module: String,
+    impl_generics: String,
+    impl_self_ty: String,
+}
+
 struct Collected {
+    trait_impls: Vec<TraitImpl>,
     fns: Vec<FnRec>,
     types: Vec<Value>,
     consts: Vec<Value>,
@@ -178,6 +190,31 @@ fn collect_items(items: &[Item], file: &str, module: &str, c: &mut Collected) {
                 }
                 let tname = last_seg(&im.self_ty);
                 let trait_name = im.trait_.as_ref().map(|(_, p, _)| p.segments.last().unwrap().ident.to_string());
+                if let Some(tn) = &trait_name {
+                    let mut assoc = BTreeMap::new();
+                    let mut overridden = BTreeSet::new();
+                    for ii in &im.items {
+                        match ii {
+                            ImplItem::Type(t) => {
+                                assoc.insert(t.ident.to_string(), pretty_type(&t.ty));
+                            }
+                            ImplItem::Fn(f) => {
+                                overridden.insert(f.sig.ident.to_string());
+                            }
+                            _ => {}
+                        }
+                    }
+                    c.trait_impls.push(TraitImpl {
+                        trait_name: tn.clone(),
+                        type_name: tname.clone(),
+                        assoc,
+                        overridden,
+                        file: file.into(),
+                        module: module.into(),
+                        impl_generics: clean(&ts(&im.generics)),
+                        impl_self_ty: pretty_type(&im.self_ty),
+                    });
+                }
                 for ii in &im.items {
                     if let ImplItem::Fn(f) = ii {
                         if is_cfg_test(&f.attrs) {
@@ -384,6 +421,53 @@ fn is_client_ctor(e: &Expr) -> bool {
         }
     }
     false
+}
+
+// ------------------------------------------------------------------------------------------
+// path normalisation: drop leading module segments (`soroban_sdk::Symbol::new` -> `Symbol::new`,
+// `stellar_access::access_control::ensure_role` -> `ensure_role`); `Self::<Assoc>` -> concrete type (T8)
+
+struct PathNorm<'a> {
+    assoc: &'a BTreeMap<String, String>,
+    sites: usize,
+}
+fn is_module_seg(s: &str) -> bool {
+    s != "self" && s != "Self" && s.chars().all(|c| c.is_lowercase() || c == '_' || c.is_ascii_digit())
+}
+impl<'a> VisitMut for PathNorm<'a> {
+    fn visit_path_mut(&mut self, p: &mut Path) {
+        visit_mut::visit_path_mut(self, p);
+        // Self::Assoc::rest
+        if p.segments.len() >= 2 && p.segments[0].ident == "Self" {
+            let a = p.segments[1].ident.to_string();
+            if let Some(t) = self.assoc.get(&a) {
+                if let Ok(tp) = syn::parse_str::<Path>(t) {
+                    let rest: Vec<PathSegment> = p.segments.iter().skip(2).cloned().collect();
+                    let mut np = tp.clone();
+                    for r in rest {
+                        np.segments.push(r);
+                    }
+                    *p = np;
+                    self.sites += 1;
+                }
+            }
+        }
+        let n = p.segments.len();
+        if n >= 2 {
+            let mut k = 0;
+            while k < n - 1 && is_module_seg(&p.segments[k].ident.to_string()) && p.segments[k].arguments.is_empty() {
+                k += 1;
+            }
+            if k > 0 || p.leading_colon.is_some() {
+                let segs: Vec<PathSegment> = p.segments.iter().skip(k).cloned().collect();
+                p.leading_colon = None;
+                p.segments = segs.into_iter().collect();
+            }
+        } else if p.leading_colon.is_some() {
+            p.leading_colon = None;
+        }
+    }
+    fn visit_macro_mut(&mut self, _m: &mut Macro) {}
 }
 
 // ------------------------------------------------------------------------------------------
@@ -771,6 +855,10 @@ impl<'a> VisitMut for Rw<'a> {
                     }
                 }
             }
+            Expr::Call(c) if matches!(&*c.func, Expr::Path(p) if { let n = p.path.segments.last().unwrap().ident.to_string(); n == "panic_fmt" || n == "panic_explicit" || n == "unreachable_display" || (n == "panic" && p.path.segments.len() == 1 && false) }) => {
+                self.site("T4-panic");
+                replacement = Some(parse_quote!(sdk_panic(0u32)));
+            }
             Expr::Call(c) => {
                 let eff = self.callee_effectful(&c.func);
                 if let Expr::Path(p) = &mut *c.func {
@@ -852,7 +940,7 @@ impl<'a> Rw<'a> {
     fn rewrite_macro(&mut self, mac: &Macro) -> Option<Expr> {
         let name = mac.path.segments.last().unwrap().ident.to_string();
         match name.as_str() {
-            "panic_with_error" | "panic" | "unreachable" | "symbol_short" | "matches" | "__vx_loop" | "__vx_iter" | "__vx_diverge" | "__vx_closure" => None,
+            "panic_with_error" | "panic" | "unreachable" | "symbol_short" | "format_args" | "matches" | "__vx_loop" | "__vx_iter" | "__vx_diverge" | "__vx_closure" => None,
             "vec" => {
                 // soroban vec![e, a, b, ...] -> Vec::from_array(e, [a, b, ...]) with rewritten elements
                 let parser = syn::punctuated::Punctuated::<Expr, Token![,]>::parse_terminated;
@@ -968,7 +1056,7 @@ fn main() {
     }
     let job: Value = serde_json::from_str(&std::fs::read_to_string(&args[1]).expect("read job")).expect("job json");
     let root = job["root"].as_str().unwrap_or("/repo").to_string();
-    let mut c = Collected { fns: vec![], types: vec![], consts: vec![], clients: vec![], type_names: BTreeSet::new() };
+    let mut c = Collected { trait_impls: vec![], fns: vec![], types: vec![], consts: vec![], clients: vec![], type_names: BTreeSet::new() };
     let mut errors: Vec<String> = vec![];
     for f in job["files"].as_array().expect("files") {
         let rel = f.as_str().unwrap();
@@ -984,6 +1072,37 @@ fn main() {
             Ok(file) => collect_items(&file.items, rel, "", &mut c),
             Err(e) => errors.push(format!("parse error in {}: {}", p, e)),
         }
+    }
+    // T8: trait default methods instantiated for each implementing type
+    if job["resolve_trait_defaults"].as_bool().unwrap_or(false) {
+        let mut synth = vec![];
+        for ti in &c.trait_impls {
+            for f in &c.fns {
+                if f.in_trait_decl && f.trait_name.as_deref() == Some(ti.trait_name.as_str()) {
+                    let name = f.sig.ident.to_string();
+                    if ti.overridden.contains(&name) {
+                        continue;
+                    }
+                    let key = format!("{}::{}", ti.type_name, name);
+                    if c.fns.iter().any(|g| g.key == key && !g.in_trait_decl) {
+                        continue;
+                    }
+                    let mut g = f.clone();
+                    g.key = key;
+                    g.impl_type = Some(ti.type_name.clone());
+                    g.impl_generics = ti.impl_generics.clone();
+                    g.impl_self_ty = ti.impl_self_ty.clone();
+                    g.in_trait_decl = false;
+                    g.vis = "pub".into();
+                    g.file = format!("{} (default of trait {} for {})", f.file, ti.trait_name, ti.type_name);
+                    let mut pn = PathNorm { assoc: &ti.assoc, sites: 0 };
+                    pn.visit_block_mut(&mut g.block);
+                    pn.visit_signature_mut(&mut g.sig);
+                    synth.push(g);
+                }
+            }
+        }
+        c.fns.extend(synth);
     }
     // selection
     let sel: Vec<String> = job["fns"].as_array().map(|a| a.iter().map(|v| v.as_str().unwrap().to_string()).collect()).unwrap_or_default();
@@ -1116,11 +1235,16 @@ fn main() {
         };
         let _ = rw.self_effectful;
         let mut block = f.block.clone();
+        let empty_assoc = BTreeMap::new();
+        let mut pn = PathNorm { assoc: &empty_assoc, sites: 0 };
+        pn.visit_block_mut(&mut block);
         rw.visit_block_mut(&mut block);
         let body = pretty_block(&block);
         // params
         let mut params = vec![];
-        for a in &f.sig.inputs {
+        let mut nsig = f.sig.clone();
+        pn.visit_signature_mut(&mut nsig);
+        for a in &nsig.inputs {
             match a {
                 FnArg::Typed(pt) => {
                     let name = clean(&ts(&pt.pat));
@@ -1141,7 +1265,7 @@ fn main() {
                 FnArg::Receiver(r) => params.push(json!({"name":"self","ty": clean(&ts(r)), "orig_ty": clean(&ts(r))})),
             }
         }
-        let ret = match &f.sig.output {
+        let ret = match &nsig.output {
             ReturnType::Default => Value::Null,
             ReturnType::Type(_, t) => json!(pretty_type(t)),
         };
